@@ -1,4 +1,5 @@
 import SodiumModel.Model.ChachaSimd
+import SodiumModel.Model.SalsaSimd
 /-
   Re-computes every line printed by `intrinsics_check.c` (real CPU) with the Lean intrinsic definitions of
   `SodiumModel/Model/ChachaSimd.lean` and reports mismatches.
@@ -97,6 +98,12 @@ def expected (op : String) (args : List String) : Option String :=
   | "_mm_shuffle_epi32", [a, i] => do let a ← v128? a; let i ← i.toNat?; some (h128 (mm_shuffle_epi32 a i))
   | "_mm256_permute2x128_si256", [a, b, i] => do
     let a ← m256? a; let b ← m256? b; let i ← i.toNat?; some (h256 (mm256_permute2x128_si256 a b i))
+  | "_mm_cvtsi128_si32", [a] => do
+    let a ← v128? a; some (toString (Sodium.Model.SalsaSimd.mm_cvtsi128_si32 a).toNat)
+  | "load_u32", [a, off] => do
+    let b ← ofHex a; let off ← off.toNat?; some (toString (load32_le (b.drop off)).toNat)
+  | "store_u32", [w] => do
+    let w ← w.toNat?; some (toHex ((Sodium.Model.SalsaSimd.store_u32 (zeros 4) 0 (u32 w))))
   | "shuffle_rot16", [a] => do let a ← v128? a; some (h128 (mm_shuffle_epi8 a rot16))
   | "shuffle_rot8", [a] => do let a ← v128? a; some (h128 (mm_shuffle_epi8 a rot8))
   | "shuffle_rot16_256", [a] => do let a ← m256? a; some (h256 (mm256_shuffle_epi8 a rot16_256))
